@@ -96,6 +96,16 @@ impl<T> Receiver<T> {
 pub uninterp spec fn edge_dels_handed(batch: Seq<EdgeDeletionEntry>) -> bool;
 pub uninterp spec fn node_dels_handed(batch: Seq<NodeDeletionEntry>) -> bool;
 pub uninterp spec fn refs_handed(room_id: Uid, batch: Seq<Edge>) -> bool;
+pub uninterp spec fn rows_handed(room_id: Uid, batch: Seq<NodeToInsert>) -> bool;
+/// the same row but for the storage slot (set by the receiver, not a signed field)
+pub open spec fn same_row(a: Node, b: Node) -> bool { (Node { _local_id: None, ..a }) == (Node { _local_id: None, ..b }) }
+/// every request of the batch carries a row, and that row is one of the rows of `src`
+pub open spec fn rows_from(b: Seq<NodeToInsert>, src: Seq<Node>) -> bool {
+    forall|j: int| 0 <= j < b.len() ==> (#[trigger] b[j]).node is Some && exists|k: int| 0 <= k < src.len() && same_row(b[j].node->Some_0, #[trigger] src[k])
+}
+/// a batch built from the rows of `src` was handed to the database service and accepted (the `exists` is hidden in a spec function)
+pub open spec fn row_batch_handed(room_id: Uid, src: Seq<Node>) -> bool { exists|b: Seq<NodeToInsert>| #[trigger] rows_handed(room_id, b) && rows_from(b, src) }
+pub open spec fn all_row_batches_handed(room_id: Uid, batches: Seq<Seq<Node>>) -> bool { forall|i: int| 0 <= i < batches.len() ==> row_batch_handed(room_id, #[trigger] batches[i]) }
 pub open spec fn all_ref_batches_handed(b: Seq<(Uid, Seq<Edge>)>) -> bool { forall|i: int| 0 <= i < b.len() ==> refs_handed((#[trigger] b[i]).0, b[i].1) }
 pub open spec fn all_edge_batches_handed(b: Seq<Seq<EdgeDeletionEntry>>) -> bool { forall|i: int| 0 <= i < b.len() ==> edge_dels_handed(#[trigger] b[i]) }
 pub open spec fn all_node_batches_handed(b: Seq<Seq<NodeDeletionEntry>>) -> bool { forall|i: int| 0 <= i < b.len() ==> node_dels_handed(#[trigger] b[i]) }
@@ -108,6 +118,7 @@ impl GraphDatabaseService {
         requires all_rows_ok(nodes@),
             // [delivered_rows_are_the_announced_versions_or_newer]{C03,C11,C02} a row delivered by the remote side is handed to the database only if it is the version announced for it - the one the last-writer-wins rule and the deletion log were consulted for - or a newer one: never an older version, which could replace a newer stored row or bring back a deleted one
             all_rows_as_announced(nodes@)
+        ensures r is Ok ==> rows_handed(room_id, nodes@)
     { unimplemented!() }
     #[verifier::external_body]
     pub async fn add_edges(&self, room_id: Uid, edges: Vec<Edge>) -> (r: std::result::Result<Vec<Uid>, DbError>)
@@ -185,7 +196,7 @@ pub fn cut_collect_ids(remote_nodes: &mut HashSet<NodeIdentifier>, nodes: HashSe
 //@ attr #[verifier::loop_isolation(false)]
 //@ rewrite E3 "crate::Error" => "crate_error::Error" x*
 //@ cut "for node in nodes" => "cut_collect_ids(&mut remote_nodes, nodes);"
-//@ rewrite E21 "for mut node in nodes \{" => "for node0 in it: nodes invariant all_nodes_ok(it.seq()), all_rows_ok(nodes_to_insert@), all_rows_as_announced(nodes_to_insert@), ingested ==> has_changes, { let mut node = node0;" x2
+//@ rewrite E21 "for mut node in nodes \{" => "for node0 in it: nodes invariant all_nodes_ok(it.seq()), all_rows_ok(nodes_to_insert@), all_rows_as_announced(nodes_to_insert@), rows_from(nodes_to_insert@, it.seq()), ingested ==> has_changes, { let mut node = node0;" x2
 //@ loop "while let Some(edge_deletion) = edge_deletion_recv.recv().await"
             invariant
                 // [whatever_was_ingested_so_far_is_a_change]{C18}
@@ -206,27 +217,34 @@ pub fn cut_collect_ids(remote_nodes: &mut HashSet<NodeIdentifier>, nodes: HashSe
             invariant
                 // [whatever_was_ingested_so_far_is_a_change]{C18}
                 ingested ==> has_changes,
+                all_row_batches_handed(room_id, row_batches),
                 all_ref_batches_handed(ref_batches),
 //@ loop "while let Some(nodes) = result_recv.recv().await" #1
             invariant
                 // [whatever_was_ingested_so_far_is_a_change]{C18}
                 ingested ==> has_changes,
+                // [fetched_rows_are_handed_to_the_database]{C03} for every batch of rows fetched for the announced versions that came out of the signature check, a batch built from THOSE rows was handed to the database service and accepted before the next one is read
+                all_row_batches_handed(room_id, row_batches),
                 all_ref_batches_handed(ref_batches),
 //@ loop "while let Some(nodes) = result_recv.recv().await" #2
             invariant
                 // [whatever_was_ingested_so_far_is_a_change]{C18}
                 ingested ==> has_changes,
+                // [fetched_rows_are_handed_to_the_database]{C03} for every batch of rows fetched for the announced versions that came out of the signature check, a batch built from THOSE rows was handed to the database service and accepted before the next one is read
+                all_row_batches_handed(room_id, row_batches),
                 all_ref_batches_handed(ref_batches),
 //@ loop "while let Some(edges) = result_recv.recv().await" #1
             invariant
                 // [whatever_was_ingested_so_far_is_a_change]{C18}
                 ingested ==> has_changes,
+                all_row_batches_handed(room_id, row_batches),
                 // [fetched_references_are_handed_to_the_database]{C03} every batch of references fetched for the announced rows that came out of the signature check was handed to the database service and accepted by it before the next one is read
                 all_ref_batches_handed(ref_batches),
 //@ loop "while let Some(edges) = result_recv.recv().await" #2
             invariant
                 // [whatever_was_ingested_so_far_is_a_change]{C18}
                 ingested ==> has_changes,
+                all_row_batches_handed(room_id, row_batches),
                 // [fetched_references_are_handed_to_the_database]{C03} every batch of references fetched for the announced rows that came out of the signature check was handed to the database service and accepted by it before the next one is read
                 all_ref_batches_handed(ref_batches),
 //@ insert body-start
@@ -234,6 +252,9 @@ pub fn cut_collect_ids(remote_nodes: &mut HashSet<NodeIdentifier>, nodes: HashSe
         let ghost mut edge_batches: Seq<Seq<EdgeDeletionEntry>> = Seq::empty();
         let ghost mut node_batches: Seq<Seq<NodeDeletionEntry>> = Seq::empty();
         let ghost mut ref_batches: Seq<(Uid, Seq<Edge>)> = Seq::empty();
+        let ghost mut row_batches: Seq<Seq<Node>> = Seq::empty();
+//@ insert-each after-stmt ".verify_nodes(nodes)"
+                    proof { row_batches = row_batches.push(nodes@); }
 //@ insert-each after-stmt ".verify_edges(edges)"
                     proof { ref_batches = ref_batches.push((room_id, edges@)); }
 //@ insert after-stmt ".verify_edge_log(edge_deletion)"
@@ -260,6 +281,7 @@ pub fn cut_collect_ids(remote_nodes: &mut HashSet<NodeIdentifier>, nodes: HashSe
 //@ insert-each before-stmt "nodes_to_insert.push(nti)"
                             // [delivered_row_is_the_announced_version_or_newer]{C03,C11,C02} a row delivered by the remote side goes on to the database only if it is the version announced for it - the one the last-writer-wins rule and the deletion log were consulted for - or a newer one (F42)
                             assert(delivered_not_older(nti));
+                            assert(same_row(nti.node->Some_0, it.seq()[it.index@ as int]));
 //@ insert-each before-stmt ".add_nodes(room_id, nodes_to_insert)"
                     // [nodes_ingested_only_after_signature_check] rows reach the database only out of the signature verification service (the storage slot is set afterwards, it is not a signed field), and for the room being synchronised
                     assert(all_rows_ok(nodes_to_insert@));
